@@ -146,8 +146,13 @@ def check_page(rst, spec, mod='M'):
 
 def gen_case(seed, n):
     g = random.Random(f"C07/{seed}/{n}")
-    gen = GM.Gen(g, lg=random.Random(f"C07/{seed}/{n}/l"), layout=g.choice([0, 1]), p_doc=0.8, max_depth=3, max_items=5,
-                 weights={'class': 2.5, 'member': 2, 'attr': 1.5, 'ctor': 1.5, 'dangling': 0.3}, doc_blocks=BLOCKS)
+    if n % 3 == 2:      # class-heavy: classes with several inner classes / members / attributes, i.e. lists of >= 2 items under a directive
+        gen = GM.Gen(g, lg=random.Random(f"C07/{seed}/{n}/l"), layout=g.choice([0, 1]), p_doc=0.9, max_depth=3, max_items=g.choice([8, 12]),
+                     weights={'class': 9, 'member': 2, 'attr': 2, 'ctor': 2, 'dangling': 0.2, 'func': 0.5, 'macro': 0.5, 'blk': 0.3, 'cpa': 0.3,
+                              'generic': 0.5, 'set': 0.5, 'option': 0.3, 'add_test': 0.3, 'cttest': 0.5}, doc_blocks=BLOCKS)
+    else:
+        gen = GM.Gen(g, lg=random.Random(f"C07/{seed}/{n}/l"), layout=g.choice([0, 1]), p_doc=0.8, max_depth=3, max_items=5,
+                     weights={'class': 2.5, 'member': 2, 'attr': 1.5, 'ctor': 1.5, 'dangling': 0.3}, doc_blocks=BLOCKS)
     return gen.module(moddoc=g.random() < 0.2), {}
 
 
